@@ -227,7 +227,8 @@ class ErrorEstimator:
 
                 # Compare with rhs.
                 if M0u0:
-                    result[i] += M0u0(t, x.reshape(2, 1))
+                    # M0u0 returns a 1-element array for a (2, 1) point.
+                    result[i] += np.asarray(M0u0(t, x.reshape(2, 1))).item()
                 if g:
                     result[i] -= g(t, x.reshape(2, 1))
 
